@@ -10,10 +10,26 @@ import (
 	"kv/kv"
 )
 
+// every temporary file of this process (solver queries, replay overlays, go build output of replays) lives
+// under one directory that is removed on exit - also when solver goroutines are still being cancelled
+var tmpRoot string
+
+func exit(code int) {
+	if tmpRoot != "" {
+		os.RemoveAll(tmpRoot)
+	}
+	os.Exit(code)
+}
+
 func main() {
+	if d, err := os.MkdirTemp("", "kvrun"); err == nil {
+		tmpRoot = d
+		os.Setenv("TMPDIR", d)
+		defer os.RemoveAll(d)
+	}
 	if len(os.Args) < 2 {
 		fmt.Fprintln(os.Stderr, "usage: kv func|check|list ...")
-		os.Exit(2)
+		exit(2)
 	}
 	switch os.Args[1] {
 	case "func":
@@ -21,21 +37,21 @@ func main() {
 	case "lemma":
 		cmdLemma(os.Args[2:])
 	case "check":
-		os.Exit(kv.CmdCheck(os.Args[2:]))
+		exit(kv.CmdCheck(os.Args[2:]))
 	case "list":
 		cmdList(os.Args[2:])
 	case "loops":
 		e, err := kv.Load("/repo")
 		if err != nil {
 			fmt.Fprintln(os.Stderr, err)
-			os.Exit(2)
+			exit(2)
 		}
 		for _, l := range e.LoopInfo(os.Args[2]) {
 			fmt.Println(l)
 		}
 	default:
 		fmt.Fprintln(os.Stderr, "unknown command", os.Args[1])
-		os.Exit(2)
+		exit(2)
 	}
 }
 
@@ -46,7 +62,7 @@ func cmdList(args []string) {
 	e, err := kv.Load(*repo)
 	if err != nil {
 		fmt.Fprintln(os.Stderr, err)
-		os.Exit(2)
+		exit(2)
 	}
 	missing := e.BindContracts()
 	for fn, fc := range e.Contracts {
@@ -70,7 +86,7 @@ func cmdFunc(args []string) {
 	e, err := kv.Load(*repo)
 	if err != nil {
 		fmt.Fprintln(os.Stderr, err)
-		os.Exit(2)
+		exit(2)
 	}
 	for _, m := range e.BindContracts() {
 		fmt.Println("unresolved contract:", m)
@@ -143,7 +159,7 @@ func cmdFunc(args []string) {
 		}
 	}
 	if bad > 0 {
-		os.Exit(1)
+		exit(1)
 	}
 }
 
@@ -157,7 +173,7 @@ func cmdLemma(args []string) {
 	e, err := kv.Load(*repo)
 	if err != nil {
 		fmt.Fprintln(os.Stderr, err)
-		os.Exit(2)
+		exit(2)
 	}
 	e.BindContracts()
 	for _, name := range fs.Args() {
